@@ -269,16 +269,9 @@ func (c *Ctx) checkLengthSource(ts []*types.Named) {
 			if m == nil {
 				continue
 			}
-			found := false
-			for _, ci := range core.CallsIn(m) {
-				if call, ok := ci.(*ssa.Call); ok {
-					if name, rv := methodCall(call); name == "Iterator" && rv != nil && strings.Contains(c.linksPath(rv), "Links") {
-						itSrc = append(itSrc, c.linksPath(rv))
-						found = true
-					}
-				}
-			}
-			if !found {
+			if src := c.iteratorSource(m, 0); src != "" {
+				itSrc = append(itSrc, src)
+			} else {
 				itSrc = append(itSrc, "?")
 			}
 		}
@@ -420,6 +413,19 @@ func (c *Ctx) checkAbsentName() {
 					}
 				}
 			}
+			// return form: if Exists { return name }; return ""
+			if len(absent.Preds) == 1 {
+				for rb := range region {
+					if len(rb.Instrs) == 0 {
+						continue
+					}
+					if ret, ok := rb.Instrs[len(rb.Instrs)-1].(*ssa.Return); ok && len(ret.Results) > 0 {
+						if k, ok := ret.Results[0].(*ssa.Const); ok && k.Value != nil && k.Value.Kind() == constant.String && constant.StringVal(k.Value) == "" {
+							good = true
+						}
+					}
+				}
+			}
 			// phi form: name := ""; if Exists { name = … }
 			for _, s := range []*ssa.BasicBlock{absent} {
 				for _, ins := range s.Instrs {
@@ -437,7 +443,7 @@ func (c *Ctx) checkAbsentName() {
 			r.Check(good, "M3", key, c.P.Pos(firstPos(b)), "a link without a name is presented under the key \"\"", "the absent-name branch does not use the constant \"\" (iteration and lookup would disagree on nameless links)")
 		}
 	}
-	r.Floor("M3", n, 3)
+	r.Floor("M3", n, 2)
 }
 
 // checkShardedAgreement implements M4.
@@ -537,8 +543,33 @@ func (c *Ctx) checkFullScan(ts []*types.Named) {
 	prims := map[*ssa.Function]bool{}
 	for _, t := range ts {
 		if m := c.methodOf(t, "LookupByString"); m != nil && len(m.Params) > 1 {
-			for f := range c.keyConsumers(m, m.Params[1]) {
-				prims[f] = true
+			// the functions the key is handed to, transitively (a per-type helper may sit in front of the shared primitive)
+			work := []struct {
+				f *ssa.Function
+				k ssa.Value
+			}{{m, m.Params[1]}}
+			for d := 0; d < 3 && len(work) > 0; d++ {
+				var next []struct {
+					f *ssa.Function
+					k ssa.Value
+				}
+				for _, w := range work {
+					for f := range c.keyConsumers(w.f, w.k) {
+						if prims[f] {
+							continue
+						}
+						prims[f] = true
+						for _, p := range f.Params {
+							if isBasic(p.Type(), types.String) {
+								next = append(next, struct {
+									f *ssa.Function
+									k ssa.Value
+								}{f, p})
+							}
+						}
+					}
+				}
+				work = next
 			}
 		}
 	}
@@ -667,4 +698,35 @@ func (c *Ctx) checkFreshHashCursor(ts []*types.Named) {
 		}
 	}
 	r.Floor("M7", n, 2)
+}
+
+// iteratorSource: the access path of the links list over which fn (or a repository helper it calls on its own receiver)
+// creates its links iterator, expressed relative to fn's receiver.
+func (c *Ctx) iteratorSource(fn *ssa.Function, depth int) string {
+	if len(fn.Params) == 0 {
+		return ""
+	}
+	for _, ci := range core.CallsIn(fn) {
+		if call, ok := ci.(*ssa.Call); ok {
+			if name, rv := methodCall(call); name == "Iterator" && rv != nil && strings.Contains(c.linksPath(rv), "Links") {
+				return c.linksPath(rv)
+			}
+		}
+	}
+	if depth >= 2 {
+		return ""
+	}
+	for _, ci := range core.CallsIn(fn) {
+		f := ci.Common().StaticCallee()
+		if f == nil || len(f.Params) == 0 || len(ci.Common().Args) == 0 || ci.Common().Args[0] != ssa.Value(fn.Params[0]) {
+			continue
+		}
+		if _, isRepo := c.P.PkgOf(f); !isRepo {
+			continue
+		}
+		if src := c.iteratorSource(f, depth+1); src != "" {
+			return strings.Replace(src, "param:"+f.Params[0].Name(), "param:"+fn.Params[0].Name(), 1)
+		}
+	}
+	return ""
 }
